@@ -11,6 +11,7 @@ import (
 	"verifharness/gen"
 	"verifharness/model"
 	"verifharness/obs"
+	"verifharness/refdec"
 )
 
 // Sketch operations as data (same idea as storeops_test.go).
@@ -23,6 +24,7 @@ type kop struct {
 	Omit   bool
 	Prefix []byte
 	Burst  []float64 // unit adds of nearby values
+	Stream []byte    // deczeros: a well-formed stream that carries no weight
 }
 
 type kSub struct {
@@ -44,6 +46,8 @@ func (o kop) String() string {
 		return fmt.Sprintf("Reweight(%v)", o.Factor.F)
 	case "encdec":
 		return fmt.Sprintf("encdec(omit=%v,prefix=%d)", o.Omit, len(o.Prefix))
+	case "deczeros":
+		return fmt.Sprintf("DecodeAndMergeWith(weightless stream % x)", o.Stream)
 	case "burst":
 		if len(o.Burst) > 4 {
 			return fmt.Sprintf("Burst(n=%d,%v…)", len(o.Burst), o.Burst[:4])
@@ -299,6 +303,10 @@ func (u *skUT) apply(op kop) string {
 		u.k.add(op.V, op.W)
 		u.adds++
 		u.cl.labelIf(op.W == 0, "zero-weight-add")
+	case "deczeros":
+		if err := u.s.DecodeAndMergeWith(op.Stream); err != nil {
+			return fmt.Sprintf("DecodeAndMergeWith refused a well-formed stream whose counts are all zero (% x): %v", op.Stream, err)
+		}
 	case "burst":
 		for _, v := range op.Burst {
 			if err := u.s.Add(v); err != nil {
@@ -438,6 +446,32 @@ func (g *kopGen) drawOp(t *rapid.T, u *skUT) kop {
 		return g.drawBurst(t, total)
 	case "spread":
 		return g.drawSpread(t, total)
+	case "deczeros":
+		// a well-formed stream (documented grammar) whose bins all have count 0, plus possibly a zero-count block of 0:
+		// decoding it must change nothing, whatever memory the stores allocate while reading it
+		var w refdec.Builder
+		nb := rapid.IntRange(1, 3).Draw(t, "zblocks")
+		for i := 0; i < nb; i++ {
+			neg := rapid.Bool().Draw(t, "zneg")
+			first := int64(rapid.IntRange(g.dom.lo, g.dom.hi).Draw(t, "zfirst"))
+			n := rapid.IntRange(1, 40).Draw(t, "zn")
+			if int(first)+n > g.dom.maxIdx {
+				n = 1
+			}
+			switch rapid.IntRange(0, 2).Draw(t, "zlayout") {
+			case 0:
+				w.Contiguous(neg, first, 1, make([]float64, n))
+			case 1:
+				bins := make([]refdec.BinAdd, n)
+				for j := range bins {
+					bins[j] = refdec.BinAdd{Index: first + int64(j), Count: 0}
+				}
+				w.DeltasCounts(neg, bins)
+			default:
+				w.Zero(0)
+			}
+		}
+		return kop{Kind: "deczeros", Stream: w.B}
 	case "bad":
 		return g.drawBad(t)
 	case "merge", "decmerge":
